@@ -22,14 +22,16 @@ Section TreeP.
   Variables St D I E : Type.
   Variable dlt : D -> D -> bool.
   Variable select : list (St * option (nat * E)) -> I -> nat.
-  Variable extend : St -> I -> option (St * E).
+  Variable extend : St -> I -> list (St * E).
   Variable sat : St -> bool.
   Variable gdist : St -> D.
   Variable dflt : St.
   Hypothesis dlt_trans : forall a b c, dlt a b = true -> dlt b c = true -> dlt a c = true.
   Hypothesis dlt_irrefl : forall a, dlt a a = false.
   Variable EdgeOk : St -> E -> St -> Prop.
-  Hypothesis extend_ok : forall n i s e, extend n i = Some (s, e) -> EdgeOk n e s.
+  Fixpoint echain_ok (n : St) (xs : list (St * E)) : Prop :=
+    match xs with [] => True | x :: t => EdgeOk n (snd x) (fst x) /\ echain_ok (fst x) t end.
+  Hypothesis extend_ok : forall n i, echain_ok n (extend n i).
   Hypothesis select_lt : forall tree i, tree <> [] -> (select tree i < length tree)%nat.
   Notation node := (node St E).
   Notation tree_step := (tree_step St D I E dlt select extend sat gdist dflt).
@@ -65,45 +67,55 @@ Section TreeP.
   Lemma state_at_snoc_new tree s p : state_at (tree ++ [(s, p)]) (length tree) = s.
   Proof. unfold state_at. rewrite app_nth2 by lia. rewrite Nat.sub_diag. reflexivity. Qed.
 
-  Lemma step_inv s i : r_tree s <> [] -> r_sol s = None -> TInv (r_tree s) -> AInv s -> TInv (r_tree (tree_step s i)) /\ AInv (tree_step s i) /\ r_tree (tree_step s i) <> [].
+  Notation add_one := (add_one St D E dlt sat gdist).
+  Notation add_chain := (add_chain St D E dlt sat gdist).
+  Lemma add_one_inv s pi x : r_sol s = None -> (pi < length (r_tree s))%nat -> EdgeOk (state_at (r_tree s) pi) (snd x) (fst x) -> TInv (r_tree s) -> AInv s ->
+    TInv (r_tree (add_one s pi x)) /\ AInv (add_one s pi x) /\ r_tree (add_one s pi x) = r_tree s ++ [(fst x, Some (pi, snd x))].
   Proof.
-    intros Hne Hsol T A. unfold RrtModel.tree_step. set (tree := r_tree s) in *. set (ni := select tree i). set (ns := fst (nth ni tree (dflt, None))).
-    destruct (extend ns i) as [[ds e]|] eqn:Em; [|auto].
-    assert (Hni : (ni < length tree)%nat) by (apply select_lt; exact Hne).
-    assert (T' : TInv (tree ++ [(ds, Some (ni, e))])).
+    intros Hsol Hni He T A. destruct x as [ds e]. cbn [fst snd] in *. unfold RrtModel.add_one. cbn [fst snd]. set (tree := r_tree s) in *.
+    assert (T' : TInv (tree ++ [(ds, Some (pi, e))])).
     { destruct T as (T1 & T2). split.
       - intros k x Hk. rewrite nth_error_snoc in Hk. destruct (k <? length tree)%nat; [apply (T1 k x Hk)|]. destruct (k =? length tree)%nat; discriminate.
       - intros k x p e0 Hk. rewrite nth_error_snoc in Hk. destruct (Nat.ltb_spec k (length tree)) as [L|L].
         + destruct (T2 k x p e0 Hk) as (A2 & ps & pp & A3 & A4). split; [exact A2|]. exists ps, pp. split; [rewrite nth_error_app1 by lia; exact A3|exact A4].
         + destruct (Nat.eqb_spec k (length tree)) as [->|N]; [|discriminate]. injection Hk as <- <- <-. split; [exact Hni|].
-          destruct (nth_error tree ni) as [[ps pp]|] eqn:En; [|apply nth_error_None in En; lia]. exists ps, pp. split; [rewrite nth_error_app1 by lia; exact En|].
-          apply (extend_ok ps i ds e). unfold ns in Em. erewrite nth_error_nth in Em by exact En. exact Em. }
-    assert (Hne' : tree ++ [(ds, Some (ni, e))] <> []) by (destruct tree; discriminate).
+          destruct (nth_error tree pi) as [[ps pp]|] eqn:En; [|apply nth_error_None in En; lia]. exists ps, pp. split; [rewrite nth_error_app1 by lia; exact En|].
+          unfold state_at in He. erewrite nth_error_nth in He by exact En. exact He. }
     unfold AInv in A. fold tree in A. rewrite Hsol in A. destruct A as (T0 & A).
     destruct (sat ds) eqn:Es.
-    - split; [exact T'|]. split; [|exact Hne']. unfold AInv. cbn [RrtModel.r_tree RrtModel.r_approx RrtModel.r_sol]. rewrite app_length. cbn [length]. split; [lia|]. rewrite state_at_snoc_new. split; [lia|]. split; [reflexivity|]. split; [reflexivity|exact Es].
+    - split; [exact T'|]. split; [|reflexivity]. unfold AInv. cbn [RrtModel.r_tree RrtModel.r_approx RrtModel.r_sol]. rewrite app_length. cbn [length]. split; [lia|]. rewrite state_at_snoc_new. split; [lia|]. split; [reflexivity|]. split; [reflexivity|exact Es].
     - destruct (r_approx s) as [[bi bd]|] eqn:Ea.
       + destruct A as (A1 & A2 & A3 & A4). destruct (dlt (gdist ds) bd) eqn:El.
-        * split; [exact T'|]. split; [|exact Hne']. unfold AInv. cbn [RrtModel.r_tree RrtModel.r_approx RrtModel.r_sol]. rewrite app_length. cbn [length]. split; [lia|]. rewrite state_at_snoc_new. split; [lia|]. split; [reflexivity|]. split; [exact Es|].
+        * split; [exact T'|]. split; [|reflexivity]. unfold AInv. cbn [RrtModel.r_tree RrtModel.r_approx RrtModel.r_sol]. rewrite app_length. cbn [length]. split; [lia|]. rewrite state_at_snoc_new. split; [lia|]. split; [reflexivity|]. split; [exact Es|].
           intros j Hj. destruct (Nat.eq_dec j (length tree)) as [->|N]; [rewrite state_at_snoc_new; apply dlt_irrefl|]. rewrite state_at_snoc_old by lia.
           destruct (dlt (gdist (state_at tree j)) (gdist ds)) eqn:Ej; [|reflexivity]. pose proof (A4 j ltac:(lia)) as C. rewrite (dlt_trans _ _ _ Ej El) in C. discriminate.
-        * split; [exact T'|]. split; [|exact Hne']. unfold AInv. cbn [RrtModel.r_tree RrtModel.r_approx RrtModel.r_sol]. rewrite app_length. cbn [length]. split; [lia|]. rewrite state_at_snoc_old by lia. split; [lia|]. split; [exact A2|]. split; [exact A3|].
+        * split; [exact T'|]. split; [|reflexivity]. unfold AInv. cbn [RrtModel.r_tree RrtModel.r_approx RrtModel.r_sol]. rewrite app_length. cbn [length]. split; [lia|]. rewrite state_at_snoc_old by lia. split; [lia|]. split; [exact A2|]. split; [exact A3|].
           intros j Hj. destruct (Nat.eq_dec j (length tree)) as [->|N]; [rewrite state_at_snoc_new; exact El|]. rewrite state_at_snoc_old by lia. apply A4. lia.
-      + destruct A as (A1 & _). split; [exact T'|]. split; [|exact Hne']. unfold AInv. cbn [RrtModel.r_tree RrtModel.r_approx RrtModel.r_sol]. rewrite app_length. cbn [length]. split; [lia|]. rewrite state_at_snoc_new. split; [lia|]. split; [reflexivity|]. split; [exact Es|].
+      + destruct A as (A1 & _). split; [exact T'|]. split; [|reflexivity]. unfold AInv. cbn [RrtModel.r_tree RrtModel.r_approx RrtModel.r_sol]. rewrite app_length. cbn [length]. split; [lia|]. rewrite state_at_snoc_new. split; [lia|]. split; [reflexivity|]. split; [exact Es|].
         intros j Hj. assert (j = length tree) by lia. subst j. rewrite state_at_snoc_new. apply dlt_irrefl.
   Qed.
-  Lemma step_extends s i : exists ext, r_tree (tree_step s i) = r_tree s ++ ext.
+  Lemma add_chain_inv : forall xs s pi, (pi < length (r_tree s))%nat -> echain_ok (state_at (r_tree s) pi) xs -> TInv (r_tree s) -> AInv s ->
+    TInv (r_tree (add_chain s pi xs)) /\ AInv (add_chain s pi xs) /\ exists ext, r_tree (add_chain s pi xs) = r_tree s ++ ext.
   Proof.
-    unfold RrtModel.tree_step. destruct (extend _ i) as [[ds e]|]; [|exists []; rewrite app_nil_r; reflexivity].
-    destruct (sat _); [eexists; reflexivity|]. destruct (r_approx s) as [[bi bd]|]; [destruct (dlt _ bd)|]; eexists; reflexivity.
+    induction xs as [|x t IH]; intros s pi Hpi Hc T A; cbn [RrtModel.add_chain].
+    - destruct (r_sol s); (split; [exact T|split; [exact A|exists []; rewrite app_nil_r; reflexivity]]).
+    - destruct (r_sol s) eqn:Es; [split; [exact T|split; [exact A|exists []; rewrite app_nil_r; reflexivity]]|].
+      destruct Hc as (He & Hc'). destruct (add_one_inv s pi x Es Hpi He T A) as (T' & A' & E').
+      destruct (IH (add_one s pi x) (length (r_tree s))) as (X & Y & (e2 & Z0)); [rewrite E', app_length; cbn; lia| |exact T'|exact A'|].
+      + rewrite E'. destruct x as [ds e]. cbn [fst snd] in *. rewrite state_at_snoc_new. exact Hc'.
+      + split; [exact X|]. split; [exact Y|]. exists ((fst x, Some (pi, snd x)) :: e2). rewrite Z0, E', <- app_assoc. reflexivity.
   Qed.
+  Lemma step_inv s i : r_tree s <> [] -> TInv (r_tree s) -> AInv s ->
+    TInv (r_tree (tree_step s i)) /\ AInv (tree_step s i) /\ exists ext, r_tree (tree_step s i) = r_tree s ++ ext.
+  Proof. intros Hne T A. unfold RrtModel.tree_step. apply add_chain_inv; [apply select_lt; exact Hne|apply extend_ok|exact T|exact A]. Qed.
   Lemma loop_inv : forall ins s, r_tree s <> [] -> TInv (r_tree s) -> AInv s ->
     TInv (r_tree (tree_loop s ins)) /\ AInv (tree_loop s ins) /\ exists ext, r_tree (tree_loop s ins) = r_tree s ++ ext.
   Proof.
     induction ins as [|i t IH]; intros s Hne T A; cbn [RrtModel.tree_loop].
     - destruct (r_sol s); (split; [exact T|split; [exact A|exists []; rewrite app_nil_r; reflexivity]]).
     - destruct (r_sol s) eqn:Es; [split; [exact T|split; [exact A|exists []; rewrite app_nil_r; reflexivity]]|].
-      destruct (step_inv s i Hne Es T A) as (T' & A' & N'). destruct (IH _ N' T' A') as (X & Y & (e2 & Z0)). destruct (step_extends s i) as (e1 & E1).
+      destruct (step_inv s i Hne T A) as (T' & A' & (e1 & E1)).
+      destruct (IH (tree_step s i)) as (X & Y & (e2 & Z0)); [rewrite E1; destruct (r_tree s); [congruence|discriminate]|exact T'|exact A'|].
       split; [exact X|]. split; [exact Y|]. exists (e1 ++ e2). rewrite Z0, E1, app_assoc. reflexivity.
   Qed.
 
@@ -145,7 +157,7 @@ Definition report_ok (St D E : Type) (sat : St -> bool) (gdist : St -> D) (dlt :
   end.
 Theorem tree_call_spec : forall (St D I E : Type) (dlt : D -> D -> bool) (select : list (St * option (nat * E)) -> I -> nat) extend sat gdist (dflt : St) (EdgeOk : St -> E -> St -> Prop),
   (forall a b c, dlt a b = true -> dlt b c = true -> dlt a c = true) -> (forall a, dlt a a = false) ->
-  (forall n i s e, extend n i = Some (s, e) -> EdgeOk n e s) -> (forall tree i, tree <> [] -> (select tree i < length tree)%nat) ->
+  (forall n i, echain_ok St E EdgeOk n (extend n i)) -> (forall tree i, tree <> [] -> (select tree i < length tree)%nat) ->
   forall starts tree0 new_starts ins, TInv St E EdgeOk starts tree0 -> (forall x, In x new_starts -> In x starts) ->
   let init := tree0 ++ map (fun x => (x, None)) new_starts in
   let tree := fst (tree_call St D I E dlt select extend sat gdist dflt tree0 new_starts ins) in
@@ -185,7 +197,7 @@ Proof. split; [intros i s H|intros i s p e H]; destruct i; discriminate. Qed.
 (* the first call *)
 Theorem tree_solve_spec : forall (St D I E : Type) (dlt : D -> D -> bool) (select : list (St * option (nat * E)) -> I -> nat) extend sat gdist (dflt : St) (EdgeOk : St -> E -> St -> Prop),
   (forall a b c, dlt a b = true -> dlt b c = true -> dlt a c = true) -> (forall a, dlt a a = false) ->
-  (forall n i s e, extend n i = Some (s, e) -> EdgeOk n e s) -> (forall tree i, tree <> [] -> (select tree i < length tree)%nat) ->
+  (forall n i, echain_ok St E EdgeOk n (extend n i)) -> (forall tree i, tree <> [] -> (select tree i < length tree)%nat) ->
   forall starts ins, starts <> [] ->
   let tree := fst (tree_solve St D I E dlt select extend sat gdist dflt starts ins) in
   TInv St E EdgeOk starts tree /\ (exists ext, tree = map (fun x => (x, None)) starts ++ ext) /\
@@ -198,7 +210,7 @@ Qed.
 (* any number of solve() calls without clear(): the tree keeps its invariant and only grows, and every call's report is real *)
 Theorem tree_calls_spec : forall (St D I E : Type) (dlt : D -> D -> bool) (select : list (St * option (nat * E)) -> I -> nat) extend sat gdist (dflt : St) (EdgeOk : St -> E -> St -> Prop),
   (forall a b c, dlt a b = true -> dlt b c = true -> dlt a c = true) -> (forall a, dlt a a = false) ->
-  (forall n i s e, extend n i = Some (s, e) -> EdgeOk n e s) -> (forall tree i, tree <> [] -> (select tree i < length tree)%nat) ->
+  (forall n i, echain_ok St E EdgeOk n (extend n i)) -> (forall tree i, tree <> [] -> (select tree i < length tree)%nat) ->
   forall starts calls tree0 new_starts, TInv St E EdgeOk starts tree0 -> (forall x, In x new_starts -> In x starts) -> tree0 ++ map (fun x => (x, None)) new_starts <> [] ->
   let res := tree_calls St D I E dlt select extend sat gdist dflt tree0 new_starts calls in
   TInv St E EdgeOk starts (fst res) /\
@@ -264,8 +276,10 @@ Section RrtG.
     end.
   Proof.
     intros I select tg Hsel starts ins Hs. unfold geo_solve.
-    pose proof (tree_solve_spec St D I unit dlt select (fun n i => rrt_extend St steer mv n (tg i)) sat gdist dflt gEdge dlt_trans dlt_irrefl (fun n i s e H => rrt_extend_ok n (tg i) s e H) Hsel starts ins Hs) as TS.
-    cbn zeta in TS. destruct (tree_solve St D I unit dlt select (fun n i => rrt_extend St steer mv n (tg i)) sat gdist dflt starts ins) as [tree rep]. cbn [fst snd] in *.
+    assert (EOK : forall n i, echain_ok St unit gEdge n (match rrt_extend St steer mv n (tg i) with Some x => [x] | None => [] end)).
+    { intros n i. destruct (rrt_extend St steer mv n (tg i)) as [[d e]|] eqn:Ex; [|exact Logic.I]. split; [apply (rrt_extend_ok n (tg i) d e Ex)|exact Logic.I]. }
+    pose proof (tree_solve_spec St D I unit dlt select (fun n i => match rrt_extend St steer mv n (tg i) with Some x => [x] | None => [] end) sat gdist dflt gEdge dlt_trans dlt_irrefl EOK Hsel starts ins Hs) as TS.
+    cbn zeta in TS. destruct (tree_solve St D I unit dlt select (fun n i => match rrt_extend St steer mv n (tg i) with Some x => [x] | None => [] end) sat gdist dflt starts ins) as [tree rep]. cbn [fst snd] in *.
     destruct TS as ((T1 & T2) & (ext & EX) & R).
     assert (NM : forall i, nth_error (map (fun n : node St unit => (fst n, option_map fst (snd n))) tree) i = option_map (fun n => (fst n, option_map fst (snd n))) (nth_error tree i)) by (intros i; apply nth_error_map).
     assert (SA : forall j, fst (nth j (map (fun n : node St unit => (fst n, option_map fst (snd n))) tree) (dflt, None)) = state_at St unit dflt tree j).
@@ -345,7 +359,29 @@ Section RrtC.
     report_ok St Z (C * nat) sat gdist Z.ltb dflt cEdge starts (length starts) tree (snd (crrt_solve St C stepf valid dist sat gdist dflt minDur starts ins)).
   Proof.
     intros starts ins Hs. unfold crrt_solve.
-    apply (tree_solve_spec St Z (citer St C) (C * nat) Z.ltb (fun tree i => nearest St Z (C * nat) dist Z.ltb tree (fst i)) (crrt_extend St C stepf valid dist minDur) sat gdist dflt cEdge zltb_trans Z.ltb_irrefl crrt_extend_ok
+    assert (EOK : forall n i, echain_ok St (C * nat) cEdge n (match crrt_extend St C stepf valid dist minDur n i with Some x => [x] | None => [] end)).
+    { intros n i. destruct (crrt_extend St C stepf valid dist minDur n i) as [[d e]|] eqn:Ex; [|exact Logic.I]. split; [apply (crrt_extend_ok n i d e Ex)|exact Logic.I]. }
+    apply (tree_solve_spec St Z (citer St C) (C * nat) Z.ltb (fun tree i => nearest St Z (C * nat) dist Z.ltb tree (fst i)) (fun n i => match crrt_extend St C stepf valid dist minDur n i with Some x => [x] | None => [] end) sat gdist dflt cEdge zltb_trans Z.ltb_irrefl EOK
+             (fun tree i H => nearest_lt St Z (C * nat) dist Z.ltb tree (fst i) H) starts ins Hs).
+  Qed.
+
+  (* with intermediate states: every motion is one propagation step onto a valid state *)
+  Definition cEdge1 (a : St) (e : C * nat) (b : St) : Prop := snd e = 1%nat /\ b = stepf (fst e) a /\ valid b = true.
+  Lemma pwv_states_chain c : forall fuel cur, echain_ok St (C * nat) cEdge1 cur (map (fun s => (s, (c, 1%nat))) (pwv_states St C stepf valid c fuel cur)).
+  Proof.
+    induction fuel as [|f IH]; intros cur; cbn [pwv_states map]; [exact Logic.I|]. destruct (valid (stepf c cur)) eqn:Ev; [|exact Logic.I].
+    cbn [map echain_ok fst snd]. split; [unfold cEdge1; cbn [fst snd]; auto|apply IH].
+  Qed.
+  Theorem crrti_solve_spec : forall starts ins, starts <> [] ->
+    let tree := fst (crrti_solve St C stepf valid dist sat gdist dflt minDur starts ins) in
+    TInv St (C * nat) cEdge1 starts tree /\ (exists ext, tree = map (fun x => (x, None)) starts ++ ext) /\
+    report_ok St Z (C * nat) sat gdist Z.ltb dflt cEdge1 starts (length starts) tree (snd (crrti_solve St C stepf valid dist sat gdist dflt minDur starts ins)).
+  Proof.
+    intros starts ins Hs. unfold crrti_solve.
+    assert (EOK : forall n i, echain_ok St (C * nat) cEdge1 n (crrti_extend St C stepf valid dist minDur n i)).
+    { intros n i. unfold crrti_extend. destruct (best_control St C stepf valid (fun x => dist x (fst i)) n (fst (snd i)) (snd (snd i))) as [[c k] st].
+      destruct (minDur <=? length (pwv_states St C stepf valid c k n))%nat; [apply pwv_states_chain|exact Logic.I]. }
+    apply (tree_solve_spec St Z (citer St C) (C * nat) Z.ltb (fun tree i => nearest St Z (C * nat) dist Z.ltb tree (fst i)) (crrti_extend St C stepf valid dist minDur) sat gdist dflt cEdge1 zltb_trans Z.ltb_irrefl EOK
              (fun tree i H => nearest_lt St Z (C * nat) dist Z.ltb tree (fst i) H) starts ins Hs).
   Qed.
 End RrtC.
